@@ -317,6 +317,8 @@ class Rig(object):
         self.engine.process_request = recording
 
     def close(self):
+        if getattr(self, "_parked", None) is not None:
+            self._parked.set()
         try:
             self.engine._data_store.dispose()
         except Exception:
@@ -404,11 +406,19 @@ class Rig(object):
         escaped = None
         box = {}
 
+        done, park = threading.Event(), threading.Event()
+
         def body():
             try:
                 sess.run()
             except BaseException as e:      # nothing may leave run()
                 box["escaped"] = "%s: %s" % (type(e).__name__, str(e)[:200])
+            finally:
+                done.set()
+                # the thread stays alive until the NEXT session of this rig has started (or the rig is closed): the
+                # operating system hands the identifier of a finished thread to the next one it starts, and a
+                # re-entrant lock a session never gave back would then look as if the new session owned it
+                park.wait(600)
         try:
             if getattr(self, "poisoned", None):
                 escaped = self.poisoned
@@ -417,6 +427,10 @@ class Rig(object):
                 # it never gave back, thread-local state - meets the next session from another thread)
                 th = threading.Thread(target=body, name="verif-session-%d" % next(_SESSION_NO), daemon=True)
                 th.start()
+                prev = getattr(self, "_parked", None)
+                if prev is not None:
+                    prev.set()
+                self._parked = park
                 # hung = alive and NO progress (no byte received, nothing sent, no iteration finished) for
                 # SESSION_HANG_S seconds - a slow machine makes progress slowly, a blocked thread makes none
                 # (computing counts as progress too: decoding a 2 MB frame byte by byte on a loaded machine sends and
@@ -425,8 +439,8 @@ class Rig(object):
                 # the absolute limit)
                 mark, since, t0 = None, time.time(), time.time()
                 while True:
-                    th.join(2)
-                    if not th.is_alive():
+                    done.wait(2)
+                    if done.is_set():
                         break
                     now_mark = (len(conn.recv_sizes), len(conn.out), len(its), int(time.process_time() / 3))
                     if now_mark != mark:
@@ -435,7 +449,7 @@ class Rig(object):
                         break
                     if time.time() - t0 > SESSION_LIMIT_S:
                         break
-                if th.is_alive():
+                if not done.is_set():
                     escaped = "SessionHung: the session thread made no progress for %d s (frames answered so far: %d)" \
                         % (SESSION_HANG_S, len([i for i in its if i.get("sent")]))
                     # whatever it waits for is gone for every later session of this rig
